@@ -3,6 +3,10 @@
 import json, subprocess, os
 
 CLAIMS = {
+ "C01": dict(
+  text="Deductive proof of the refusal and mode-selection half of the wire codec: Encoder.validQuoted equals the quoted-string admissibility predicate for every byte string (length threshold 4096, NUL/CR/LF, 8-bit bytes only with UTF-8 quoting), Encoder.String quotes only admissible strings, stringLiteral/Literal choose '{n}' vs '{n+}' exactly per side and negotiated mode and announce exactly len(s) bytes, isValidFlag equals the flag grammar [\\] 1*ATOM-CHAR, and a malformed flag, malformed mailbox attribute or empty number set is refused with an error before anything is written.",
+  note="unicode.IsControl modelled by its Latin-1 definition (assumed). Not covered (not claimed): decode(encode(v)) == v round-trips (Quoted/Decoder.Quoted inverse, literals, numbers, mailbox UTF-7, nested lists), 'exactly the written bytes are consumed'; the decoder side is under contract only for its error discipline (C02/C06).",
+  design="§6 C01"),
  "C05": dict(
   text="Deductive proof, for every method of imapserver.Conn except serve and handleIdle and from an arbitrary entry state and configuration (TLS or not, InsecureAuth, any back-end outcome), that each call of a Session method is reached only in the RFC-permitted connection state (call-site obligations: Login only when not authenticated and over TLS or with InsecureAuth; Select/Create/.../Poll only when authenticated or selected; Unselect/Expunge/Search/Fetch/Store/Copy/Move only when selected), that checkState and canAuth have their exact meaning, that every handler other than login/authenticate/unauthenticate/select/unselect/logout leaves the state unchanged, and that those six perform exactly the RFC transitions for each back-end outcome (failed SELECT leaves no mailbox selected, etc.).",
   note="Frames of calls without contract come from govc's may-write analysis (CHA for interface and function-value calls); back-end Session implementations cannot write Conn's unexported fields (Go visibility). Object invariant assumed at method entry: c != nil && c.server != nil. Not covered: Conn.serve (greeting, PREAUTH, loop exit at logout), handleIdle (goroutine), the SASL closure inside handleAuthenticate, the unknown-command BYE in readCommand.",
@@ -15,6 +19,10 @@ CLAIMS = {
   text="Deductive proof that SessionTracker.DecodeSeqNum and EncodeSeqNum equal the fold of the per-update translation functions stepDec/stepEnc over the pending queue (unbounded queue length, all uint32 numbers), that the per-update translations are mutually inverse and yield zero exactly for the expunged / not-yet-announced message (lemmas for every well-formed update and count), and that the ghost folds terminate.",
   note="Mutex operations are no-ops (sequential reading under the lock). Queue-level composition of the per-update inverse lemmas, Poll and the fan-out in MailboxTracker.queueUpdate are not yet under contract.",
   design="§6 C07"),
+ "C18": dict(
+  text="Deductive proof that the client only uses syntax the negotiated capabilities allow: a non-synchronising literal is started by Encoder.stringLiteral only with LITERAL+ or with LITERAL- and at most 4096 bytes, and by commandEncoder.Literal (APPEND) only for at most 4096 bytes with LITERAL- available (CapSet.Has implication rules proved exact for LITERAL-, LITERAL+, IMAP4rev2, UTF8=ACCEPT); beginCommand configures the wire encoder from exactly those capabilities; every direct use of Encoder.Quoted passes an admissible string (no CR/LF/NUL, 8-bit only with UTF-8 quoting); Encoder.Literal hands out a payload writer for a synchronising literal only after ContinuationRequest.Wait returned without error and a payload-dropping writer otherwise.",
+  note="Not covered: real-time ordering of the server's '+' against client writes beyond the Wait contract (schedules), search CHARSET selection, cancellation of continuation requests in completeCommand.",
+  design="§6 C18"),
  "C19": dict(
   text="Deductive proof that SearchCriteria.And yields the intersection field by field: for every size/date the combined Larger/Smaller/Since/Before/SentSince/SentBefore bound matches iff both operands' bounds match (unset = zero handled), every list field becomes old ++ other (length and element-wise, unbounded lengths), ModSeq is carried over / tightened; intersectSince/intersectBefore proved against the date matcher for all instants.",
   note="time.Time modelled as an opaque instant with IsZero/Before/After as a strict total order (assumed stdlib contract); operands must not share list backing arrays (precondition noListAliasing). The server parser's key-order independence and message.search's use of the semantics are not yet under contract.",
